@@ -64,6 +64,8 @@ fn worker(args: &[String]) -> i32 {
         "walks-forget" => engines::worker_walks(&wa, Fate::Forget, 6, 1),
         "probes" => engines::worker_probes(&wa, &root()),
         "shared" => engines::worker_shared(&wa),
+        "variants" => engines::worker_variants(&wa),
+        "geometry" => engines::worker_geometry(&wa),
         "mem" => engines::worker_mem(&wa),
         "mem-big" => engines::worker_mem_big(&wa),
         other => { eprintln!("worker: unknown engine {}", other); return 2; }
@@ -101,6 +103,13 @@ fn exec_case(args: &[String]) -> i32 {
     lruverif::tracked::install_panic_hook(true);
     if let Some(line) = text.lines().find(|l| l.starts_with("memsize")) {
         return match engines::run_mem_line(line) { Ok(_) => 0, Err(_) => 2 };
+    }
+    if let Some(v) = text.lines().find_map(|l| l.strip_prefix("variant ")) {
+        let body: String = text.lines().filter(|l| !l.starts_with("variant ")).collect::<Vec<_>>().join("\n");
+        return match Case::from_text(&body) {
+            Ok(c) => { let _ = lruverif::variants::run_variant(v.trim(), &c); 0 },
+            Err(_) => 2,
+        };
     }
     if text.lines().any(|l| l.starts_with("shared t=")) {
         return match lruverif::shared::SharedCase::from_text(&text) {
@@ -169,6 +178,20 @@ fn replay(args: &[String]) -> i32 {
             },
         };
     }
+    if let Some(v) = text.lines().find_map(|l| l.strip_prefix("variant ")) {
+        let body: String = text.lines().filter(|l| !l.starts_with("variant ")).collect::<Vec<_>>().join("\n");
+        let case = match Case::from_text(&body) { Ok(c) => c, Err(e) => { eprintln!("replay: {}", e); return 2; } };
+        let known = load_known(&root());
+        let out = match lruverif::variants::run_variant(v.trim(), &case) { Some(o) => o, None => { eprintln!("replay: unknown variant {}", v); return 2; } };
+        for f in &out.fails {
+            println!("FAILURE tags={} sig={} step={} : {}", f.tags.join("+"), f.sig, f.step, f.msg);
+        }
+        return match judge(&out.fails, prop, &known) {
+            Verdict::Violation(_) => { println!("VIOLATION property={} replay={}", prop, path); 1 },
+            Verdict::Known(sig) => { println!("KNOWN-FINDING: property={} {}", prop, sig); 0 },
+            _ => { println!("replay: property {} held on this case", prop); 0 },
+        };
+    }
     let case = match Case::from_text(&text) {
         Ok(c) => c,
         Err(e) => { eprintln!("replay: {}", e); return 2; }
@@ -213,6 +236,18 @@ struct Job {
 fn jobs_for(prop: &str, thorough: bool) -> Vec<Job> {
     let mut jobs = jobs_for_inner(prop, thorough);
     let cache_family = !matches!(prop, "C08" | "C09" | "C18");
+    if matches!(prop, "C01" | "C02" | "C04" | "C05" | "C06" | "C07" | "C11" | "C12" | "C14" | "C15" | "C17" | "C19") {
+        jobs.push(Job { engine: "variants", build: "", asan: false, workers: 16, cases: if thorough { 4000 } else { 400 }, timeout_s: 3600 });
+        if matches!(prop, "C06" | "C07" | "C12" | "C17") {
+            jobs.push(Job { engine: "variants", build: "", asan: true, workers: 16, cases: if thorough { 1000 } else { 100 }, timeout_s: 3600 });
+        }
+    }
+    if matches!(prop, "C02" | "C04" | "C05" | "C06" | "C07" | "C13" | "C20") {
+        jobs.push(Job { engine: "geometry", build: "", asan: false, workers: 16, cases: 0, timeout_s: 1800 });
+        if matches!(prop, "C06" | "C07") {
+            jobs.push(Job { engine: "geometry", build: "", asan: true, workers: 16, cases: 0, timeout_s: 1800 });
+        }
+    }
     if cache_family {
         jobs.insert(0, Job { engine: "corpus", build: "", asan: false, workers: 1, cases: 0, timeout_s: 600 });
         if thorough {
@@ -331,6 +366,7 @@ fn crash_relevant(prop: &str, case_text: &str) -> bool {
         "C14" => case_text.contains("clone"),
         "C16" => case_text.contains("inject"),
         "C17" => case_text.contains("forget"),
+        _ if case_text.contains("variant ") => matches!(prop, "C06" | "C07" | "C12" | "C17"),
         "C19" => case_text.contains("shared t="),
         _ => false,
     }
